@@ -13,6 +13,7 @@ EXPLANATION = ("Views are (source, absolute region[, absolute cursor]). Decided 
                "its ByteSlice twin; (R4) ByteStream::read caps the buffer by region.end() - cursor and advances by the returned "
                "count, and size_left/size/offset are end-cursor / region.size() / cursor-begin. Byte equality of the views is not decided."
                ' Added later: (R6) SeekableDecoder::read waits for min(offset + buf.len(), total), nothing coarser.')
+EXPLANATION += ' Batch 11: (R5) FileSource::get_slice touches the file only through its own read_exact on every path; no second handle on the file.'
 ASSUMPTIONS = ["Source implementations honour absolute regions (C06/C07 rules)", "rustc MIR construction and trait resolution"]
 
 VIEW_TYPES = ["bases::reader::Reader", "bases::reader::CheckReader", "reader::byte_region::ByteRegion", "reader::byte_slice::ByteSlice"]
@@ -335,7 +336,19 @@ def r5_file_reads_are_positioned(cx):
         cx.ob("R5", "R5/FileSource::%s" % m, ok, f, "FileSource::%s seeks to SeekFrom::Start(requested offset) and reads through the guard of one single lock() (one critical section) on every path" % m)
     g = F.one(impl_self="bases::io::file::FileSource", item="get_slice", trait="Source", closure=False)
     gb = F.body(g)
-    cx.ob("R5", "R5/FileSource::get_slice", len(gb.calls(r"FileSource as .*Source>::read_exact$")) == 1 and not gb.calls(r"Read>::read$"), g, "FileSource::get_slice goes through its own read_exact(region.begin(), ..)")
+    own = gb.calls(r"FileSource as .*Source>::read_exact$")
+    direct = sorted({callee_str(t).split("::<")[0].split("::")[-1] for i, t in gb.calls(r"Read>::(read|read_exact|read_to_end|read_buf|read_vectored)$", r"Seek>::(seek|rewind|seek_relative)$", r"try_clone$", r"BufRead>::(fill_buf|consume)$", r"BufReader::<.*>::(get_ref|get_mut|into_inner|buffer)$", r"FileExt>::read(_exact)?_at$", r"Mutex::<.*>::lock$")
+                     if not gb.is_cleanup(i) and "FileSource as" not in callee_str(t)})
+    every_path = len(own) == 1 and gb.must_pass_before_return({own[0][0]})
+    cx.ob("R5", "R5/FileSource::get_slice", len(own) == 1 and not direct and every_path, g,
+          "FileSource::get_slice goes through its own read_exact(region.begin(), ..) on every successful path and touches the file in no other way (direct accesses: %s)" % (direct or "none"))
+    # nothing in FileSource takes a second handle on the file: a dup shares the file offset with the locked reader
+    dups = []
+    for h in F.live_fns:
+        if "blocks" in h and re.search(r"bases::io::file::FileSource", h["name"]):
+            hb = F.body(h)
+            dups += ["%s:%s" % (re.sub(r"<.*?>", "", h["name"]).split("::")[-1], t.get("ln")) for i, t in hb.calls(r"File::try_clone$", r"as_raw_fd$", r"AsFd>::as_fd$", r"from_raw_fd$") if not hb.is_cleanup(i)]
+    cx.ob("R5", "R5/FileSource/no-second-handle", not dups, "(impl FileSource)", "no method of FileSource duplicates the file handle or takes its descriptor (%s)" % (dups or "none"))
     st = F.struct("io::file::FileSource")
     names = sorted(fl["name"] for fl in st["fields"])
     cx.ob("R5", "R5/FileSource-has-no-position-state", names == ["len", "path", "source"], "(struct FileSource)", "FileSource keeps no remembered position besides the file itself: fields %s" % names)
